@@ -187,9 +187,9 @@ func (m *consMonitor) judge(state, why string, s *consSums, recorded []*definiti
 			if len(fl) > 6 {
 				fl = append(fl[:6], fmt.Sprintf("...(%d more)", len(fl)-6))
 			}
-			m.fail("%s: token %s recorded supply %s (max %s), balances of all %d accounts = %s + confirmed-unreceived sends = %s [%s] add up to %s: difference %s ; %s",
-				state, tokName(t.TokenStandard), amt(t.TotalSupply), amt(t.MaxSupply), naccounts, amt(b), amt(f), strings.Join(fl, " "), amt(sum),
-				amt(new(big.Int).Sub(sum, t.TotalSupply)), why)
+			m.fail("%s, %s: token %s: recorded supply %s, but balances of all %d accounts (%s) + confirmed-unreceived sends (%s) = %s: difference %s [max supply %s; in flight: %s]",
+				why, state, tokName(t.TokenStandard), amt(t.TotalSupply), naccounts, amt(b), amt(f), amt(sum),
+				amt(new(big.Int).Sub(sum, t.TotalSupply)), amt(t.MaxSupply), strings.Join(fl, " "))
 		}
 		if t.MaxSupply == nil || t.TotalSupply.Cmp(t.MaxSupply) > 0 {
 			ok = false
